@@ -1,41 +1,32 @@
 package main
 
 import (
-	"bufio"
-	"encoding/binary"
 	"fmt"
-	"os"
 
-	"github.com/zenon-network/go-zenon/common/types"
-	"github.com/zenon-network/go-zenon/vm/embedded/definition"
 	"verif/lab/ledger"
+	"verif/lab/node"
+	"verif/lab/walk"
 )
 
 func main() {
-	fh, _ := os.Open(os.Args[1])
-	rd := bufio.NewReaderSize(fh, 1<<22)
-	p := ledger.NewProjector()
-	for {
-		line, err := rd.ReadBytes('\n')
-		if len(line) > 1 {
-			e, _ := ledger.ParseRaw(line)
-			if e.Chain == 1 {
-				p.Feed(e)
-				if e.Ev == "momentum" && e.Momentum.Height == 362 {
-					st := p.Mirror().GetAccountStore(types.PillarContract).Storage()
-					it := st.NewIterator([]byte{132})
-					for it.Next() {
-						k := it.Key()
-						a, _ := types.BytesToAddress(k[1:21])
-						ep := binary.LittleEndian.Uint64(k[21:29])
-						h, err := definition.GetRewardDepositHistory(st, ep, &a)
-						fmt.Println(len(k), a, ep, h.Znn, h.Qsr, err)
-					}
-				}
-			}
-		}
-		if err != nil {
-			break
-		}
+	walk.LabConstants()
+	cap := ledger.StartCapture()
+	p, err := node.New("P", node.Options{Producer: true})
+	if err != nil {
+		panic(err)
+	}
+	defer p.Stop()
+	w := walk.New(p, 7)
+	err = w.Run(150)
+	fmt.Println("run", err, p.Height(), w.Submitted, w.RejectedAtSend, w.Methods)
+	d, err := w.Drain(30)
+	fmt.Println("drained", d, err, p.Problems)
+	for _, l := range w.Log[:40] {
+		fmt.Println(l)
+	}
+	for _, id := range cap.ChainIDs() {
+		pr := ledger.NewProjector()
+		pr.Observer = ledger.StandardObserver(walk.EpochMomentums)
+		fmt.Println(cap.Project(id, pr), len(pr.Events), pr.Blocks, pr.Momentums, pr.Note)
 	}
 }
